@@ -663,6 +663,7 @@ class Session:
         self.wait_before_continuing: asyncio.Future[None] | None = None
         self.completed = False
         self.ctkd_task: Awaitable[None] | None = None
+        self.link_key_authenticated = False
 
         # Decide if we're the initiator or the responder
         self.is_initiator = is_initiator
@@ -1119,6 +1120,14 @@ class Session:
             )
         else:
             self.ltk = self.derive_ltk(self.link_key, self.ct2)
+            # The derived LTK is only as authenticated as the link key it comes from
+            if (keystore := self.manager.device.keystore) is not None:
+                keys = await keystore.get(str(self.connection.peer_address))
+                self.link_key_authenticated = (
+                    keys is not None
+                    and keys.link_key is not None
+                    and keys.link_key.authenticated
+                )
 
     def distribute_keys(self) -> None:
         # Distribute the keys as required
@@ -1325,7 +1334,12 @@ class Session:
         # Create an object to hold the keys
         keys = PairingKeys()
         keys.address_type = peer_address.address_type
-        authenticated = self.pairing_method != PairingMethod.JUST_WORKS
+        if self.pairing_method == PairingMethod.CTKD_OVER_CLASSIC:
+            # No association model was run: the keys inherit the authentication of
+            # the BR/EDR link key
+            authenticated = self.link_key_authenticated
+        else:
+            authenticated = self.pairing_method != PairingMethod.JUST_WORKS
         if self.sc or self.connection.transport == PhysicalTransport.BR_EDR:
             keys.ltk = PairingKeys.Key(value=self.ltk, authenticated=authenticated)
         else:
